@@ -4,6 +4,8 @@ import (
 	"fmt"
 	"go/token"
 	"go/types"
+	"sort"
+	"strings"
 
 	"golang.org/x/tools/go/ssa"
 )
@@ -29,6 +31,7 @@ func checkC05(c *Ctx) {
 	c.Rule("R3", "pooled buffer typestate: get -> copy -> put once; only own buffers are put back; no escape")
 	c.Rule("R4", "join before close: every return after a successful dial crosses the join on the second direction")
 	c.Rule("R5", "wrapper transparency: Read/Write return the underlying n, err for the caller's slice and touch only their own deadline")
+	c.Rule("R6", "no socket option that discards queued data on close (SO_LINGER >= 0) anywhere on the data path")
 
 	hc := p.Func("proc/tcp", "(*tcpProc).HandleConn")
 	pipe := p.Func("proc/tcp", "(*tcpProc).pipeConn")
@@ -343,6 +346,7 @@ func checkC05(c *Ctx) {
 		c.Check(okRet, "R5", site+" returns the underlying n, err", under.Pos(), "results are the underlying call's results", "the wrapper alters the byte count or swallows the error of the underlying call: the copy loop mis-slices its buffer or ignores a failure")
 	}
 	c.Expect("R5", 6)
+	checkNoDiscardingSockopt(c, "R6")
 }
 
 // cellKey resolves a connection value through single-assignment local cells / captured variables by name.
@@ -440,4 +444,68 @@ func localLatchClosedByRelay(fn *ssa.Function, ch ssa.Value, pipe *ssa.Function)
 		}
 	}
 	return false
+}
+
+// checkNoDiscardingSockopt (C05.R6): the relay counts a direction as delivered once Write has returned, i.e. once the
+// bytes are queued in the kernel; they still have to be sent after the proxy closes its socket. SO_LINGER with a
+// non-negative timeout makes close() discard (0) or give up on (>0) that queue. Every call on a network connection
+// in the data-path packages is classified; SetLinger with anything but a negative constant fails.
+func checkNoDiscardingSockopt(c *Ctx, rule string) {
+	p := c.P
+	isConnType := func(t types.Type) bool {
+		s := types.TypeString(t, nil)
+		return s == "net.Conn" || s == "*net.TCPConn" || s == "*net.UnixConn" || s == "net.Listener" || s == "*net.TCPListener" ||
+			strings.HasSuffix(s, "proc/internal/net.Conn")
+	}
+	n := 0
+	for _, rel := range []string{"proc/tcp", "proc/internal/net", "proc", "proc/redis", "utils"} {
+		for _, fn := range p.FuncsIn(rel) {
+			if p.isTestFn(fn) {
+				continue
+			}
+			calls := map[string]bool{}
+			bad := ""
+			var badAt token.Pos
+			eachInstr(fn, func(_ *ssa.BasicBlock, _ int, in ssa.Instruction) {
+				cc := callOf(in)
+				if cc == nil {
+					return
+				}
+				name := ""
+				var recv types.Type
+				if cc.IsInvoke() {
+					name, recv = cc.Method.Name(), cc.Value.Type()
+				} else if g := calleeFn(cc); g != nil && g.Signature.Recv() != nil {
+					name, recv = g.Name(), g.Signature.Recv().Type()
+				}
+				if name == "" || recv == nil || !isConnType(recv) {
+					return
+				}
+				calls[name] = true
+				if name == "SetLinger" {
+					arg := cc.Args[len(cc.Args)-1]
+					if k, isC := constInt(arg); !isC || k >= 0 {
+						bad = "SetLinger with a non-negative or unknown timeout"
+						badAt = in.Pos()
+					}
+				}
+			})
+			if len(calls) == 0 {
+				continue
+			}
+			n++
+			var names []string
+			for k := range calls {
+				names = append(names, k)
+			}
+			sort.Strings(names)
+			if bad != "" {
+				c.Fail(rule, "connection calls in "+fnKey(fn), badAt, bad+": closing the socket then discards the bytes that Write has accepted but the kernel has not sent yet - the peer loses the tail of the stream and sees a reset instead of end-of-stream")
+			} else {
+				c.OK(rule, "connection calls in "+fnKey(fn), fn.Pos(), "calls: "+strings.Join(names, ",")+" - none discards queued data on close")
+			}
+		}
+	}
+	c.Expect(rule, 5)
+	_ = n
 }
